@@ -136,6 +136,8 @@ func (h *Header) Unmarshal(buf []byte) (n int, err error) { //nolint:gocognit,cy
 	if h.Extensions != nil {
 		h.Extensions = h.Extensions[:0]
 	}
+	// a header without extension has no profile, whatever the receiver described before
+	h.ExtensionProfile = 0
 
 	if h.Extension { // nolint: nestif
 		if expected := n + 4; len(buf) < expected {
